@@ -102,6 +102,11 @@ def run(ctx):
     from .c07 import serializer_config
 
     serializer_config(ctx.sub("DEP-C07"))
+    # "every verdict is the same before and after": writing sorts the signature map, so the verdict
+    # must not depend on the order (or neighbours) of its entries (C06-R3, re-evaluated here)
+    from .c06 import entries_independent
+
+    entries_independent(ctx.sub("DEP-C06"), "R3")
 
 
 def _inplace_signers(ctx, rule="R3"):
